@@ -143,6 +143,9 @@ func main() {
 			evals += len(rep.Obls) - before
 		}
 		rep.note("packages=%d library_files=%d package_functions=%d", len(worlds[0].Pkgs), worlds[0].NFiles, len(worlds[0].SrcFuncs()))
+		if *tier == "thorough" && os.Getenv("HLINT_NO_CORPUS") == "" {
+			replayCorpus(rep, p, *repo, *verif)
+		}
 		if c := finish(rep, *tier, seed, *verif, cfgNames, t0, evals); c > exit {
 			exit = c
 		}
